@@ -23,6 +23,18 @@ for tc in ET.parse(xml).getroot().iter("testcase"):
         passed.add(name)
 os.unlink(xml)
 missing = sorted(stable - passed)
+if 0 < len(missing) <= 5:
+    # a timing assertion (tests.v2_x.test_state_serialization::test_serialization: average < 0.2 s) fails on a loaded
+    # machine: tests that did not pass are run once more, alone
+    for m in list(missing):
+        mod, name = m.split("::", 1)
+        path = mod.replace(".", "/") + ".py"
+        r = subprocess.run(["/venv/bin/python", "-m", "pytest", "-q", "-p", "no:cacheprovider", "--timeout=900", f"{path}::{name}"],
+                           cwd=repo, env=env, stdout=subprocess.PIPE, stderr=subprocess.STDOUT, text=True)
+        if r.returncode == 0:
+            print("  (passed when run again alone:", m + ")")
+            passed.add(m)
+    missing = sorted(stable - passed)
 print(f"baseline: {len(stable & passed)}/{len(stable)} stable tests pass in {repo}")
 for m in missing[:40]:
     print("  NOT PASSING:", m)
